@@ -433,8 +433,8 @@ func constInt64(c *ssa.Const) (int64, bool) {
 // after havoc and explicit invariants. Returns the surviving candidates.
 func (st *State) inferInvariants(pre *State, li *loopInfo, ws *writeSet) []candidate {
 	u := st.u
-	if u.houdini != nil || u.noHoudini {
-		return nil // nested inference inside an inference run: skipped (explicit invariants only)
+	if u.houdini != nil || u.noHoudini || (u.spec != nil && u.spec.Flags["noinfer"] != "") {
+		return nil // nested inference inside an inference run, or `flag noinfer`: explicit invariants only
 	}
 	e := st.eng()
 	if ws.all {
